@@ -160,6 +160,9 @@ pub struct Out {
     pub clock_fired: bool,
     /// the search did not end on its own within the wall-clock allowance and was stopped
     pub overran: bool,
+    /// cache contents when the injected stop / clock expiry took effect, and at the end (observe only)
+    pub cache_at_cut: Option<Vec<(u64, crate::board::transposition_table::TTEntry)>>,
+    pub cache_at_end: Vec<(u64, crate::board::transposition_table::TTEntry)>,
 }
 
 static LAST_PANIC: Mutex<String> = Mutex::new(String::new());
@@ -240,6 +243,7 @@ pub fn run_within(board: &Board, case: &Case, o: &Opts, allowance: std::time::Du
     hooks::tt_set_neutral(o.neutral);
     hooks::tt_observe(o.observe);
     let _ = hooks::tt_take_writes();
+    let _ = hooks::tt_take_snapshot();
     hooks::log_arm(true);
     let _ = hooks::log_take();
     match case.cut {
@@ -273,7 +277,10 @@ pub fn run_within(board: &Board, case: &Case, o: &Opts, allowance: std::time::Du
         search.search(&SimpleEvaluator, max_depth);
         search.rce_verif_result()
     }));
-    let overran = {
+    // (a forked child has no watchdog thread and must not touch a lock that thread may have held)
+    let overran = if hooks::fork_child().is_some() {
+        false
+    } else {
         let mut w = WATCH.lock().unwrap_or_else(|e| e.into_inner());
         w.flag = None;
         w.deadline = None;
@@ -287,6 +294,10 @@ pub fn run_within(board: &Board, case: &Case, o: &Opts, allowance: std::time::Du
         ..Default::default()
     };
     hooks::log_arm(false);
+    if o.observe {
+        out.cache_at_cut = hooks::tt_take_snapshot();
+        out.cache_at_end = hooks::tt_contents();
+    }
     hooks::tt_observe(false);
     hooks::tt_set_neutral(false);
     hooks::clock_virtual(false, 0);
